@@ -1075,7 +1075,29 @@ mod srvlevel {
         t.split(',').map(|x| if x == "n" { Some(None) } else { super::num(x).map(|v| Some(v as u64)) }).collect()
     }
 
-    async fn echo_ok(c: &mut tokio::net::TcpStream, tag: u8) -> bool {
+    /// where a scenario's clients connect to
+    #[derive(Clone, Debug)]
+    enum Target {
+        Tcp(std::net::SocketAddr),
+        Uds(std::path::PathBuf),
+    }
+
+    trait Rw: tokio::io::AsyncRead + tokio::io::AsyncWrite + Unpin + Send {}
+    impl<T: tokio::io::AsyncRead + tokio::io::AsyncWrite + Unpin + Send> Rw for T {}
+    type Cl = Box<dyn Rw>;
+
+    async fn connect_to(t: &Target) -> std::io::Result<Cl> {
+        match t {
+            Target::Tcp(a) => {
+                let c = tokio::net::TcpStream::connect(a).await?;
+                let _ = socket2::SockRef::from(&c).set_linger(Some(Duration::ZERO));
+                Ok(Box::new(c))
+            }
+            Target::Uds(p) => Ok(Box::new(tokio::net::UnixStream::connect(p).await?)),
+        }
+    }
+
+    async fn echo_ok<S: tokio::io::AsyncRead + tokio::io::AsyncWrite + Unpin>(c: &mut S, tag: u8) -> bool {
         use tokio::io::{AsyncReadExt, AsyncWriteExt};
         if c.write_all(&[tag]).await.is_err() {
             return false;
@@ -1085,7 +1107,7 @@ mod srvlevel {
     }
 
     /// send this scenario's nonce and wait (bounded) for its echo
-    async fn hello(c: &mut tokio::net::TcpStream, nonce: &[u8; 8]) -> bool {
+    async fn hello<S: tokio::io::AsyncRead + tokio::io::AsyncWrite + Unpin>(c: &mut S, nonce: &[u8; 8]) -> bool {
         use tokio::io::{AsyncReadExt, AsyncWriteExt};
         if c.write_all(nonce).await.is_err() {
             return false;
@@ -1097,11 +1119,48 @@ mod srvlevel {
     /// `served` counts the connections that presented `nonce` (this scenario's own clients): ports are reused
     /// quickly when many checks run at once, so a stranger may connect to this server, and a probe of this
     /// scenario may reach a stranger's server — neither may be mistaken for "served by this server"
-    fn server(workers: usize, timeout: Option<u64>, signals: bool, served: Arc<AtomicUsize>, nonce: [u8; 8]) -> std::io::Result<(actix_server::Server, std::net::SocketAddr)> {
-        use actix_service::fn_service;
+    async fn serve_echo<S: tokio::io::AsyncRead + tokio::io::AsyncWrite + Unpin>(mut stream: S, served: Arc<AtomicUsize>, nonce: [u8; 8]) -> Result<(), ()> {
         use tokio::io::{AsyncReadExt, AsyncWriteExt};
-        let lst = std::net::TcpListener::bind("127.0.0.1:0")?;
-        let addr = lst.local_addr()?;
+        let mut buf = [0u8; 64];
+        let mut head: Vec<u8> = vec![];
+        loop {
+            match stream.read(&mut buf).await {
+                Ok(0) | Err(_) => break,
+                Ok(n) => {
+                    if head.len() < 8 {
+                        let before = head.len();
+                        head.extend_from_slice(&buf[..n.min(8 - before)]);
+                        if before < 8 && head.len() == 8 && head[..] == nonce[..] {
+                            served.fetch_add(1, Ordering::SeqCst);
+                        }
+                    }
+                    if stream.write_all(&buf[..n]).await.is_err() {
+                        break;
+                    }
+                }
+            }
+        }
+        Ok(())
+    }
+
+    /// how the listener gets into the builder
+    #[derive(Clone, Copy, PartialEq, Debug)]
+    enum Lst {
+        Tcp,       // `listen` with a std TcpListener bound by the caller
+        UdsBind,   // `bind_uds` with a path
+        UdsListen, // `listen_uds` with a std UnixListener bound by the caller, in the mode std gives it (blocking), as a
+                   // socket-activation caller would hand it over
+    }
+
+    fn server(workers: usize, timeout: Option<u64>, signals: bool, served: Arc<AtomicUsize>, nonce: [u8; 8]) -> std::io::Result<(actix_server::Server, std::net::SocketAddr)> {
+        match server_on(Lst::Tcp, workers, timeout, signals, served, nonce)? {
+            (srv, Target::Tcp(a)) => Ok((srv, a)),
+            _ => unreachable!(),
+        }
+    }
+
+    fn server_on(lst: Lst, workers: usize, timeout: Option<u64>, signals: bool, served: Arc<AtomicUsize>, nonce: [u8; 8]) -> std::io::Result<(actix_server::Server, Target)> {
+        use actix_service::fn_service;
         let mut b = actix_server::Server::build().workers(workers);
         if let Some(t) = timeout {
             b = b.shutdown_timeout(t); // None: the default configuration
@@ -1109,46 +1168,55 @@ mod srvlevel {
         if !signals {
             b = b.disable_signals();
         }
-        let srv = b
-            .listen("verif", lst, move || {
-                let served = served.clone();
-                fn_service(move |mut stream: actix_rt::net::TcpStream| {
-                    let served = served.clone();
-                    async move {
-                        let mut buf = [0u8; 64];
-                        let mut head: Vec<u8> = vec![];
-                        loop {
-                            match stream.read(&mut buf).await {
-                                Ok(0) | Err(_) => break,
-                                Ok(n) => {
-                                    if head.len() < 8 {
-                                        let before = head.len();
-                                        head.extend_from_slice(&buf[..n.min(8 - before)]);
-                                        if before < 8 && head.len() == 8 && head[..] == nonce[..] {
-                                            served.fetch_add(1, Ordering::SeqCst);
-                                        }
-                                    }
-                                    if stream.write_all(&buf[..n]).await.is_err() {
-                                        break;
-                                    }
-                                }
-                            }
-                        }
-                        Ok::<_, ()>(())
-                    }
-                })
-            })?
-            .run();
-        Ok((srv, addr))
+        let uds_path = || {
+            static SEQ: AtomicUsize = AtomicUsize::new(0);
+            let p = std::env::temp_dir().join(format!("vh-{}-{}.sock", std::process::id(), SEQ.fetch_add(1, Ordering::SeqCst)));
+            let _ = std::fs::remove_file(&p);
+            p
+        };
+        match lst {
+            Lst::Tcp => {
+                let l = std::net::TcpListener::bind("127.0.0.1:0")?;
+                let addr = l.local_addr()?;
+                let srv = b
+                    .listen("verif", l, move || {
+                        let served = served.clone();
+                        fn_service(move |stream: actix_rt::net::TcpStream| serve_echo(stream, served.clone(), nonce))
+                    })?
+                    .run();
+                Ok((srv, Target::Tcp(addr)))
+            }
+            Lst::UdsBind => {
+                let p = uds_path();
+                let srv = b
+                    .bind_uds("verif", &p, move || {
+                        let served = served.clone();
+                        fn_service(move |stream: actix_rt::net::UnixStream| serve_echo(stream, served.clone(), nonce))
+                    })?
+                    .run();
+                Ok((srv, Target::Uds(p)))
+            }
+            Lst::UdsListen => {
+                let p = uds_path();
+                let l = std::os::unix::net::UnixListener::bind(&p)?;
+                let srv = b
+                    .listen_uds("verif", l, move || {
+                        let served = served.clone();
+                        fn_service(move |stream: actix_rt::net::UnixStream| serve_echo(stream, served.clone(), nonce))
+                    })?
+                    .run();
+                Ok((srv, Target::Uds(p)))
+            }
+        }
     }
 
     /// Run a `Server` on a thread (and runtime) of its own: `handle_cmd(Stop)` joins the accept thread with a
     /// *blocking* call, so a server whose accept thread never exits blocks its runtime for ever — it must not
     /// be the scenario's. Returns the handle, the address and a receiver that resolves when the `Server`
     /// future has resolved. A server that never resolves leaks its thread; the process exits all the same.
-    fn host_server<F>(build: F) -> std::io::Result<(actix_server::ServerHandle, std::net::SocketAddr, tokio::sync::oneshot::Receiver<()>)>
+    fn host_server<F, A: Send + 'static>(build: F) -> std::io::Result<(actix_server::ServerHandle, A, tokio::sync::oneshot::Receiver<()>)>
     where
-        F: FnOnce() -> std::io::Result<(actix_server::Server, std::net::SocketAddr)> + Send + 'static,
+        F: FnOnce() -> std::io::Result<(actix_server::Server, A)> + Send + 'static,
     {
         let (h, a, drx, ktx) = host_server_droppable(build)?;
         std::mem::forget(ktx); // never dropped, never fired: the Server future is awaited to its end
@@ -1158,9 +1226,9 @@ mod srvlevel {
     /// … and a sender that makes the hosting thread DROP the `Server` future (unresolved, no stop): the accept thread and the
     /// workers go on without a command loop (what a `select!` that the server future loses does to an application)
     #[allow(clippy::type_complexity)]
-    fn host_server_droppable<F>(build: F) -> std::io::Result<(actix_server::ServerHandle, std::net::SocketAddr, tokio::sync::oneshot::Receiver<()>, tokio::sync::oneshot::Sender<()>)>
+    fn host_server_droppable<F, A: Send + 'static>(build: F) -> std::io::Result<(actix_server::ServerHandle, A, tokio::sync::oneshot::Receiver<()>, tokio::sync::oneshot::Sender<()>)>
     where
-        F: FnOnce() -> std::io::Result<(actix_server::Server, std::net::SocketAddr)> + Send + 'static,
+        F: FnOnce() -> std::io::Result<(actix_server::Server, A)> + Send + 'static,
     {
         let (tx, rx) = std::sync::mpsc::channel();
         let (dtx, drx) = tokio::sync::oneshot::channel();
@@ -1237,15 +1305,27 @@ mod srvlevel {
         second: Vec<bool>,
         gap2: u64,
         late: Option<bool>, // `late=g|f`: one more stop() after everything has completed (its future must resolve, too)
+        lst: Lst,
         dropfut: bool,
         paused: bool,
     }
 
     fn parse_scn(ws: &[&str]) -> Option<Scn> {
         let workers = kv(ws, "workers").and_then(super::num).unwrap_or(1);
+        // `timeout=<seconds>|max|default`: anything a u64 holds (`max` = u64::MAX, "never force"); above 10 s only with
+        // connections that all end (nothing waits for such a time-out)
         let timeout = match kv(ws, "timeout") {
             Some("default") => None,
-            t => Some(t.and_then(super::num).unwrap_or(1) as u64),
+            Some("max") => Some(u64::MAX),
+            None => Some(1),
+            Some(t) if !t.is_empty() && t.len() <= 20 && t.bytes().all(|b| b.is_ascii_digit()) => Some(t.parse::<u64>().ok()?),
+            _ => return None,
+        };
+        let lst = match kv(ws, "lst") {
+            None | Some("tcp") => Lst::Tcp,
+            Some("uds") => Lst::UdsBind,
+            Some("udsl") => Lst::UdsListen,
+            _ => return None,
         };
         let graceful = match kv(ws, "mode") {
             Some("g") => true,
@@ -1268,7 +1348,7 @@ mod srvlevel {
             None => 0,
             Some(g) => super::num(g)? as u64,
         };
-        if workers == 0 || workers > 64 || holds.len() > 64 || timeout.is_some_and(|t| t > 10) || second.len() > 4 || gap2 > 5000 {
+        if workers == 0 || workers > 64 || holds.len() > 64 || second.len() > 4 || gap2 > 5000 || (timeout.is_some_and(|t| t > 10) && holds.iter().any(|h| h.is_none())) {
             return None;
         }
         let late = match kv(ws, "late") {
@@ -1277,7 +1357,7 @@ mod srvlevel {
             Some("f") => Some(false),
             _ => return None,
         };
-        Some(Scn { workers, timeout, graceful, holds, second, gap2, late, dropfut: kv(ws, "drop") == Some("1"), paused: kv(ws, "paused") == Some("1") })
+        Some(Scn { workers, timeout, graceful, holds, second, gap2, late, lst, dropfut: kv(ws, "drop") == Some("1"), paused: kv(ws, "paused") == Some("1") })
     }
 
     async fn scenario(sc: &Scn) -> Outcome {
@@ -1292,8 +1372,8 @@ mod srvlevel {
         // ports may be scarce when many checks run at once: retry
         let mut tries = 0;
         let (handle, addr, mut srv_done) = loop {
-            let (w, t, sv) = (sc.workers, sc.timeout, served.clone());
-            match host_server(move || server(w, t, false, sv, nonce)) {
+            let (w, t, sv, l) = (sc.workers, sc.timeout, served.clone(), sc.lst);
+            match host_server(move || server_on(l, w, t, false, sv, nonce)) {
                 Ok(x) => break x,
                 Err(e) if is_port_error(&e) && tries < 40 => {
                     tries += 1;
@@ -1310,7 +1390,7 @@ mod srvlevel {
         for i in 0..sc.holds.len() {
             let mut tries = 0;
             let mut c = loop {
-                match tokio::net::TcpStream::connect(addr).await {
+                match connect_to(&addr).await {
                     Ok(c) => break c,
                     Err(e) if is_port_error(&e) && tries < 40 => {
                         tries += 1;
@@ -1323,7 +1403,6 @@ mod srvlevel {
                     }
                 }
             };
-            let _ = socket2::SockRef::from(&c).set_linger(Some(Duration::ZERO));
             // present the nonce (echoed back by our service), then a tagged echo
             let mut ok = hello(&mut c, &nonce).await;
             if ok {
@@ -1408,7 +1487,9 @@ mod srvlevel {
         }
         let t_ms = sc.timeout.unwrap_or(30) as u128 * 1000;
         let bound = ((t_ms + 999) / 1000 + 1) * 1000;
-        let cap = Duration::from_millis((bound + 5500) as u64);
+        // (a time-out above 10 s comes with connections that all end: the last one's end, rounded up to a tick, bounds the wait)
+        let by_holds: Option<u128> = sc.holds.iter().map(|h| h.map(|x| x as u128)).try_fold(0u128, |m, h| h.map(|x| m.max(x))).map(|m| (m / 1000 + 2) * 1000);
+        let cap = Duration::from_millis((by_holds.map_or(bound, |b| b.min(bound)).min(60_000) + 5500) as u64);
         let t_server = match tokio::time::timeout(cap, &mut srv_done).await {
             Ok(_) => Some(t0.elapsed().as_millis()),
             Err(_) => None,
@@ -1461,8 +1542,7 @@ mod srvlevel {
         // nothing is served after completion: a probe presenting our nonce must not be counted by OUR service
         // (whoever answers on that port now — nobody, or a stranger that got the port — is not our concern)
         if t_server.is_some() {
-            if let Ok(Ok(mut c)) = tokio::time::timeout(Duration::from_millis(500), tokio::net::TcpStream::connect(addr)).await {
-                let _ = socket2::SockRef::from(&c).set_linger(Some(Duration::ZERO));
+            if let Ok(Ok(mut c)) = tokio::time::timeout(Duration::from_millis(500), connect_to(&addr)).await {
                 let _ = hello(&mut c, &nonce).await;
             }
             tokio::time::sleep(Duration::from_millis(50)).await;
@@ -1542,6 +1622,9 @@ mod srvlevel {
             }
         }
         out.late = t_server.is_none();
+        if let Target::Uds(p) = &addr {
+            let _ = std::fs::remove_file(p);
+        }
         out
     }
 
@@ -2012,6 +2095,10 @@ mod srvlevel {
         wakers: std::sync::Mutex<Vec<(usize, std::task::Waker)>>,
         /// the service of a worker killed in `call` is slow to tear down (2.5 s)
         slow_teardown: std::sync::atomic::AtomicBool,
+        /// calls of the factory so far
+        factory_calls: AtomicUsize,
+        /// notified: the thread that runs the Server future is kept busy for 1.5 s (commands pile up in its channel)
+        busy: tokio::sync::Notify,
     }
 
     const KILL_ANY: usize = usize::MAX;
@@ -2163,6 +2250,23 @@ mod srvlevel {
             Some("1") => true,
             _ => return (line.to_string(), "bad-op".into(), vec![]),
         };
+        // `signals=1`: the server is built WITHOUT disable_signals() (the builder's default): the command loop listens to OS
+        // signals as well and still receives the fault reports and stops;
+        // `pausedrep=1` (limit=1): the replacement of a dead worker comes up while the server is paused; after resume it is in
+        // the rotation (one held connection per worker)
+        let signals = match kv(&ws, "signals") {
+            None => false,
+            Some("1") => true,
+            _ => return (line.to_string(), "bad-op".into(), vec![]),
+        };
+        let pausedrep = match kv(&ws, "pausedrep") {
+            None => false,
+            Some("1") => true,
+            _ => return (line.to_string(), "bad-op".into(), vec![]),
+        };
+        if pausedrep && (workers != 2 || limit != Some(1) || kill != 0 || faults != 1 || with_stop || pair || dropsrv || busystop || hold || sat) {
+            return (line.to_string(), "bad-op".into(), vec![]);
+        }
         if sat && (workers != 2 || limit != Some(1) || kill != 0 || faults != 1 || with_stop || pair || dropsrv || busystop || hold) {
             return (line.to_string(), "bad-op".into(), vec![]);
         }
@@ -2184,13 +2288,28 @@ mod srvlevel {
                 ready_panics: std::sync::atomic::AtomicBool::new(kill == 1),
                 fail_factory: std::sync::atomic::AtomicBool::new(false),
                 wakers: Default::default(),
-                slow_teardown: std::sync::atomic::AtomicBool::new(!busystop && !sat),
+                slow_teardown: std::sync::atomic::AtomicBool::new(!busystop && !sat && !pausedrep),
+                factory_calls: AtomicUsize::new(0),
+                busy: tokio::sync::Notify::new(),
             });
             let sh = shared.clone();
             let (handle, addr, mut srv_done, drop_srv) = match host_server_droppable(move || {
                 let lst = std::net::TcpListener::bind("127.0.0.1:0")?;
                 let addr = lst.local_addr()?;
-                let mut b = actix_server::Server::build().workers(workers).shutdown_timeout(STOP_T).disable_signals();
+                {
+                    // (this closure runs on the runtime that will run the Server future)
+                    let shb = sh.clone();
+                    tokio::spawn(async move {
+                        loop {
+                            shb.busy.notified().await;
+                            std::thread::sleep(Duration::from_millis(1500));
+                        }
+                    });
+                }
+                let mut b = actix_server::Server::build().workers(workers).shutdown_timeout(STOP_T);
+                if !signals {
+                    b = b.disable_signals();
+                }
                 if let Some(l) = limit {
                     b = b.max_concurrent_connections(l);
                 }
@@ -2200,6 +2319,7 @@ mod srvlevel {
                         actix_service::fn_factory(move || {
                             let sh = sh.clone();
                             async move {
+                                sh.factory_calls.fetch_add(1, Ordering::SeqCst);
                                 if sh.fail_factory.swap(false, Ordering::SeqCst) {
                                     return Err(()); // the re-creation of a broken service fails as well
                                 }
@@ -2221,6 +2341,68 @@ mod srvlevel {
             answers.push(ask(addr, w).await);
             answers.push(ask(addr, w).await);
             let mut drop_srv = Some(drop_srv);
+            if pausedrep {
+                std::mem::forget(drop_srv.take());
+                tokio::time::sleep(Duration::from_millis(200)).await;
+                // a worker dies (nobody has noticed); the thread of the Server future is busy for 1.5 s; pause() is called, then
+                // a connection discovers the dead worker: the command loop finds [Pause, WorkerFaulted] and the accept loop is
+                // paused when it is handed the replacement
+                shared.kill_target.store(KILL_ANY, Ordering::SeqCst);
+                let killed = ask(addr, Duration::from_millis(1500)).await;
+                tokio::time::sleep(Duration::from_millis(100)).await;
+                let calls0 = shared.factory_calls.load(Ordering::SeqCst);
+                shared.busy.notify_one();
+                tokio::time::sleep(Duration::from_millis(100)).await;
+                let t_pause = Instant::now();
+                let pause_fut = handle.pause(); // the command is sent by the call
+                for _ in 0..3 {
+                    let _ = ask(addr, Duration::from_millis(300)).await;
+                }
+                let in_time = t_pause.elapsed() < Duration::from_millis(1200);
+                let paused = tokio::time::timeout(Duration::from_secs(8), pause_fut).await.is_ok();
+                let t = Instant::now();
+                while shared.instances.load(Ordering::SeqCst) < 3 && t.elapsed() < Duration::from_secs(10) {
+                    tokio::time::sleep(Duration::from_millis(25)).await;
+                }
+                let started = shared.factory_calls.load(Ordering::SeqCst) > calls0;
+                let replaced = shared.instances.load(Ordering::SeqCst) >= 3;
+                tokio::time::sleep(Duration::from_millis(400)).await; // the accept loop has been handed the new worker, paused
+                let resumed = tokio::time::timeout(Duration::from_secs(5), handle.resume()).await.is_ok();
+                tokio::time::sleep(Duration::from_millis(300)).await;
+                // one connection per worker, held at the same time (limit 1): the replacement takes one
+                let tasks: Vec<_> = (0..2)
+                    .map(|_| {
+                        tokio::spawn(async move {
+                            use tokio::io::AsyncReadExt;
+                            let mut c = tokio::net::TcpStream::connect(addr).await.ok()?;
+                            let _ = socket2::SockRef::from(&c).set_linger(Some(Duration::ZERO));
+                            let mut b = [0u8; 1];
+                            match tokio::time::timeout(w, c.read_exact(&mut b)).await {
+                                Ok(Ok(_)) => Some((c, b[0])),
+                                _ => None,
+                            }
+                        })
+                    })
+                    .collect();
+                let mut heldc = vec![];
+                for t in tasks {
+                    if let Ok(Some(x)) = t.await {
+                        heldc.push(x);
+                    }
+                }
+                if started && paused && resumed && replaced && heldc.len() < 2 {
+                    fails.push(format!(
+                        "[C08,C03] the replacement of a dead worker came up while the server was paused{}; after resume only {} of 2 connections opened at the same time were answered within 8 s (by instance(s) {:?}; every worker may hold 1): the replacement never rejoined the rotation",
+                        if in_time { "" } else { " (the machine was slow: the pause may have come late)" },
+                        heldc.len(),
+                        heldc.iter().map(|x| x.1 as char).collect::<Vec<_>>()
+                    ));
+                }
+                let n = heldc.len();
+                drop(heldc);
+                stop_bounded(&handle, srv_done).await;
+                return format!("killed={} replaced={} paused={} resumed={} pair={n}/2", show(killed), replaced as u8, paused as u8, resumed as u8);
+            }
             if sat {
                 std::mem::forget(drop_srv.take());
                 use tokio::io::AsyncReadExt;
@@ -3197,7 +3379,13 @@ mod gen {
             writeln!(w, "fault fb busystop=1").unwrap();
             // one worker saturated and alive, the other dead but marked available: the next connection goes to the live one
             writeln!(w, "fault fc limit=1 sat=1").unwrap();
+            // signals enabled (the builder's default): fault reports and stops still reach the command loop
+            writeln!(w, "fault fg signals=1").unwrap();
+            // the replacement comes up while the server is paused and is in the rotation after resume
+            writeln!(w, "fault fz limit=1 pausedrep=1").unwrap();
             if thorough {
+                writeln!(w, "fault fg2 signals=1 faults=2 pair=1 limit=1").unwrap();
+                writeln!(w, "fault fg3 signals=1 stop=1").unwrap();
                 writeln!(w, "fault fk2 kill=ready").unwrap();
                 writeln!(w, "fault fk3 workers=1 kill=restart").unwrap();
                 writeln!(w, "fault fk4 kill=restart faults=2").unwrap();
@@ -3350,6 +3538,15 @@ mod gen {
             // overlapping stops: the later ones are issued when the first has been taken off the channel; every future waits
             srv(&mut *w, "workers=1 timeout=5 mode=g holds=1500 second=g,f gap2=300");
             srv(&mut *w, "workers=2 timeout=2 mode=g holds=n,300 second=f,g gap2=400");
+            // "never force": a time-out no clock can reach — the stop completes when the connection ends, not before, and
+            // nothing overflows on the way
+            srv(&mut *w, "workers=1 timeout=max mode=g holds=1200");
+            srv(&mut *w, "workers=2 timeout=1000000000000 mode=g holds=300,1300");
+            // listeners handed to the builder in other ways (a unix socket by path; a unix listener bound by the caller and handed
+            // over as std made it — blocking): a connection is served, then the stop and the Server future resolve
+            srv(&mut *w, "workers=1 timeout=1 mode=g holds=300 lst=udsl");
+            srv(&mut *w, "workers=1 timeout=5 mode=f holds=n lst=udsl");
+            srv(&mut *w, "workers=2 timeout=2 mode=g holds=300,n lst=uds second=g gap2=300");
             // one more stop() after the shutdown is over (the Server future has resolved): resolves at once
             srv(&mut *w, "workers=1 timeout=1 mode=g holds=300 late=f");
             srv(&mut *w, "workers=2 timeout=5 mode=f holds=n late=g second=g");
@@ -3365,6 +3562,18 @@ mod gen {
                     }
                 }
                 srv(&mut *w, "workers=2 timeout=default mode=g holds=300,3500 second=g gap2=1000");
+                for lst in ["uds", "udsl"] {
+                    for (mode, holds) in [("g", "-"), ("g", "300"), ("g", "n"), ("f", "n"), ("f", "300,n"), ("g", "1300,300")] {
+                        for extra in ["", "second=f gap2=200", "late=g", "paused=1"] {
+                            srv(&mut *w, &format!("workers=2 timeout=2 mode={mode} holds={holds} lst={lst} {extra}"));
+                        }
+                    }
+                }
+                srv(&mut *w, "workers=1 timeout=max mode=f holds=1200");
+                srv(&mut *w, "workers=2 timeout=18446744073709551615 mode=g holds=300,2300 second=g gap2=500");
+                srv(&mut *w, "workers=1 timeout=9223372036854775807 mode=g holds=1200");
+                srv(&mut *w, "workers=1 timeout=18446744073709551616 mode=g holds=300");
+                srv(&mut *w, "workers=1 timeout=max mode=g holds=n");
                 srv(&mut *w, "workers=1 timeout=default mode=f holds=n");
                 for workers in [1usize, 2] {
                     for timeout in [0usize, 1, 2, 5] {
